@@ -229,7 +229,7 @@ def build(A, law, args):
 def judge(A, fn, want):
     """Run fn on the real code; return (ok, observed description, outcome tag)."""
     try:
-        got = fn()
+        got = rf.limited(fn)
         st = 'ok'
     except ZeroDivisionError:
         got, st = None, 'ZeroDivisionError'
@@ -269,6 +269,10 @@ def suffix(law, args, want):
     return ''
 
 
+class UnitAborted(Exception):
+    pass
+
+
 class Runner:
     def __init__(self, part, spec):
         self.part = part
@@ -290,9 +294,11 @@ class Runner:
         part.outcomes.add((law, tag if not isinstance(tag, int) or tag < 8 else 'c'))
         if not ok:
             exp = WANT_TXT.get(w[0]) or (f'code {w[1]}' if w[0] in ('elem', 'both') else repr(w[1]))
-            part.violation(f'C20:{law}:{A.kind}{suffix(law, args, w)}',
+            part.violation(f'C20:{law}:{A.kind}{suffix(law, args, w)}' + (':hang' if tag == 'Hang' else ''),
                            f'{self.name}: {law}{tuple(args)!r}: observed {obs}, expected {exp}',
                            dict(spec=self.spec, law=law, args=list(args)))
+            if tag == 'Hang':
+                raise UnitAborted
         elif self.nsamples < 1 and nontrivial and law in ('truediv', 'pow', 'rsub_int', 'rshift') and A.q > 4:
             self.nsamples += 1
             part.sample(dict(field=self.name, law=law, args=list(args), observed=obs))
@@ -400,13 +406,21 @@ def jobs(tier, seed):
 
 def run_job(job):
     part = Part()
+    rf.arm_watchdog()
     for unit in job['units']:
-        run_unit(part, unit)
+        try:
+            run_unit(part, unit)
+        except UnitAborted:
+            part.caps.append('a unit was abandoned after a call into the code under test hung (see violation)')
     return part
 
 
 def replay(case):
     part = Part()
+    rf.arm_watchdog()
     r = Runner(part, case['spec'])
-    r.check(case['law'], tuple(case['args']))
+    try:
+        r.check(case['law'], tuple(case['args']))
+    except UnitAborted:
+        pass
     return part
